@@ -6,11 +6,11 @@ from mcx.ref import report
 
 PID = 'C14'
 CHUNK = 1
-CASE_TIMEOUT = 3600      # one case = the whole reachability search of one model
+CASE_TIMEOUT = 14400     # CPU seconds; one case = the whole reachability search of one model
 TOLERANCE = 'every result after any history equals the result of a fresh object that only did f<-current; compute; that request (1e-12 relative; texts equal); separate processes byte-identical'
 RULE = ('(a) explicit-state reachability on 10 models (one per load kind: none, lumped, RLC, trap, Laplace, skin effect by '
         'conductivity and by resistivity, insulation, both distributed loads on a 2-wire junction, tapered wire over ground, '
-        'helix): operations {f<-a, f<-b, f<-c, compute, far field x4, near field x3, report, option list} '
+        'helix): operations {f<-a, f<-b, f<-c, compute, far field x4, near field x3, report, option list, attach the load to one more pulse, change the source voltage} '
         '(far field 3/4 and near field 3 differ from 1 in exactly one start value), each enabled '
         'when the API contract allows it; breadth-first over histories, each history replayed on a FRESH real object, '
         'states deduplicated by a digest of the complete mutable state (recursive walk of all objects, arrays by content), '
@@ -23,11 +23,11 @@ ASSUMPTIONS = ['fields are requested only after a compute at the current frequen
                'the state digest may be finer than necessary (costs states, never soundness)']
 
 FREQS = [14.0, 21.3, 28.5]
-OPS = ['Fa', 'Fb', 'Fc', 'C', 'FF1', 'FF2', 'FF3', 'FF4', 'NF1', 'NF2', 'NF3', 'REP', 'CMD']
+OPS = ['Fa', 'Fb', 'Fc', 'C', 'FF1', 'FF2', 'FF3', 'FF4', 'NF1', 'NF2', 'NF3', 'REP', 'CMD', 'LD', 'V']
 
 
 def bounds(tier, seed):
-    return dict(depth=4 if tier == 'quick' else 6, ops=OPS, freqs=FREQS)
+    return dict(depth=4 if tier == 'quick' else 7, ops=OPS, freqs=FREQS)
 
 
 # ------------------------------------------------------------------ models
@@ -82,6 +82,21 @@ def apply(m, op, st):
         m.f = FREQS['abc'.index(op[1])]
         st['ff'] = st['nf'] = False
         return ('f', m.f)
+    if op == 'LD':
+        # configuration change between solves: the model's lumped load object (or a new one) gets one more pulse
+        lump = [l for l in m.loads if not isinstance(l, mm.Distributed_Load)]
+        m.register_load(lump[0] if lump else mm.Impedance_Load(10 + 5j), 1)
+        st['cfg'] = st.get('cfg', ()) + ('LD',)
+        st['cf'] = None
+        st['ff'] = st['nf'] = False
+        return ('cfg', 'LD')
+    if op == 'V':
+        # configuration change: another (complex) source voltage
+        m.sources[0].voltage = 0.3 - 2j
+        st['cfg'] = st.get('cfg', ()) + ('V',)
+        st['cf'] = None
+        st['ff'] = st['nf'] = False
+        return ('cfg', 'V')
     if op == 'C':
         m.compute()
         st['cf'] = m.f
@@ -132,6 +147,8 @@ def enabled(op, st, f):
         return FREQS['abc'.index(op[1])] != f
     if op == 'C':
         return True
+    if op in ('LD', 'V'):
+        return op not in st.get('cfg', ())
     if op in ('FF1', 'FF2', 'FF3', 'FF4', 'NF1', 'NF2', 'NF3', 'REP'):
         return st.get('cf') == f
     return True
@@ -214,7 +231,7 @@ def same(a, b):
 
 def cases(tier, seed):
     for name in MODELS:
-        yield dict(kind='reach', model=name, depth=4 if tier == 'quick' else 6)
+        yield dict(kind='reach', model=name, depth=4 if tier == 'quick' else 7)
     for base in SWEEP_BASES:
         for steps in (1, 2, 3, 4):
             yield dict(kind='sweep', base=base, steps=steps)
@@ -261,11 +278,13 @@ def evaluate(c):
         name, depth = c['model'], c['depth']
         fresh_cache = {}
 
-        def fresh(f, op, st_flags):
-            key = (f, op, st_flags)
+        def fresh(f, op, st_flags, cfg=()):
+            key = (f, op, st_flags, cfg)
             if key not in fresh_cache:
                 m = model(name)
                 st = {}
+                for o_ in cfg:
+                    apply(m, o_, st)
                 if m.f != f:
                     m.f = f
                 apply(m, 'C', st)
@@ -299,7 +318,7 @@ def evaluate(c):
                             lastff = o
                         if o.startswith('NF'):
                             lastnf = o
-                        if o in ('C',) or o.startswith('F') and not o.startswith('FF'):
+                        if o in ('C', 'LD', 'V') or o.startswith('F') and not o.startswith('FF'):
                             lastff = lastnf = None
                     if not enabled(op, st, m.f):
                         continue
@@ -308,21 +327,23 @@ def evaluate(c):
                         lastff = op
                     if op.startswith('NF'):
                         lastnf = op
-                    if op == 'C' or (op.startswith('F') and not op.startswith('FF')):
+                    if op in ('C', 'LD', 'V') or (op.startswith('F') and not op.startswith('FF')):
                         lastff = lastnf = None
                     ntrans += 1
                     if op == 'CMD':
                         ref = fresh(FREQS[0], 'CMD', (None, None)) if False else None
                         # option list depends on f: compare with a fresh object at the same f (no compute needed)
                         mf = model(name)
+                        for o_ in st.get('cfg', ()):
+                            apply(mf, o_, {})
                         if mf.f != m.f:
                             mf.f = m.f
                         ref = ('TXT', mf.as_cmdline())
-                    elif op in ('Fa', 'Fb', 'Fc'):
+                    elif op in ('Fa', 'Fb', 'Fc', 'LD', 'V'):
                         ref = res
                     else:
-                        ref = fresh(m.f, op, (lastff if op == 'REP' else None, lastnf if op == 'REP' else None))
-                    okk, why = same(res, ref)
+                        ref = fresh(m.f, op, (lastff if op == 'REP' else None, lastnf if op == 'REP' else None), st.get('cfg', ()))
+                    okk, why = (True, '') if op in ('LD', 'V') else same(res, ref)
                     if not okk:
                         viol.append(('HISTORY-%s-%s' % (op, name), 'model %s: after history %s the result of %s differs from a fresh object at f=%g (%s)' % (name, hist, op, m.f, why)))
                     d = digest_state(m)
